@@ -44,6 +44,8 @@ var TrustedDoc = map[string]string{
  	"strings.Split(s, \"\")": "every element is non-empty; an element starting with a byte < 0x80 has length 1",
  	"(*regexp.Regexp).FindStringSubmatch": "returns nil or 1+NumSubexp strings (NumSubexp of package-level regexps is read from the real compiled value)",
  	"bufio.Scanner": "the reader holds a sequence of lines; Scan() returns true and advances iff a line is left and it is shorter than the maximum token size (65536 unless Buffer() raised it to at least its max argument); Text() is the line just passed; no line is 2^62 bytes long",
+	"strings.Fields": "no element of the result is empty",
+	"strings.Split(s, sep)": "with a non-empty separator the result has at least one element",
 	"strings.Join":          "uninterpreted deterministic function of (elements, length, separator)",
 	"fmt.Errorf":            "returns a non-nil error",
 	"errors.New":            "returns a non-nil error",
@@ -197,6 +199,17 @@ func (ex *Exec) libCall(st *State, fn *ssa.Function, args []Val, pos string) []O
 		return ret1(st, Err{Nil: smt.False})
 	case "fmt.Sprintf", "fmt.Sprint", "fmt.Sprintln":
 		ex.trust("fmt.Sprintf")
+		if name == "fmt.Sprintf" && len(args) == 2 {
+			if f, ok := args[0].(Str); ok {
+				if format, isLit := ex.litValue(f.T); isLit {
+					if pack, ok := args[1].(Slice); ok && (pack.Lit != nil || pack.Len == "0") {
+						if r, ok := ex.Sprintf(format, pack.Lit); ok {
+							return ret1(st, r)
+						}
+					}
+				}
+			}
+		}
 		return ret1(st, Str{ex.Ctx.Fresh("sprintf", "Str")})
 	case "fmt.Printf", "fmt.Println", "fmt.Print":
 		ex.trust(name)
@@ -242,6 +255,18 @@ func (ex *Exec) libCall(st *State, fn *ssa.Function, args []Val, pos string) []O
 					ln := smt.App(fl, terms...)
 					st.Assume(smt.Ge(ln, "0"))
 					rs := Slice{Arr: smt.App(fa, terms...), Len: ln, Elem: sl.Elem(), B: ex.newBacking()}
+					if name == "strings.Fields" {
+						ex.trust("strings.Fields")
+						k := ex.boundName("k")
+						e := smt.Sel(rs.Arr, k)
+						st.Assume(smt.Forall([][2]string{{k, "Int"}}, smt.Imp(smt.And(smt.Le("0", k), smt.Lt(k, ln)), smt.Ge(smt.App("slen", e), "1")), e))
+					}
+					if name == "strings.Split" && len(args) == 2 && term(args[1]) != "emptystr" {
+						if _, isLit := ex.litValue(term(args[1])); isLit {
+							ex.trust("strings.Split(s, sep)")
+							st.Assume(smt.Ge(ln, "1"))
+						}
+					}
 					if name == "strings.Split" && len(args) == 2 && term(args[1]) == "emptystr" {
 						// Split(s, "") explodes s into UTF-8 sequences: every element is non-empty and
 						// an element that starts with an ASCII byte is that single byte
@@ -262,6 +287,30 @@ func (ex *Exec) libCall(st *State, fn *ssa.Function, args []Val, pos string) []O
 	}
 	_ = strings.Join
 	return []Outcome{{St: st, Ret: rets}}
+}
+
+// Sprintf with a literal format is a deterministic function of its arguments, one symbol
+// per format string.
+func (ex *Exec) Sprintf(format string, vals []Val) (res Val, ok bool) {
+	defer func() {
+		if r := recover(); r != nil {
+			if _, isOut := r.(OutsideSubset); isOut {
+				ok = false
+				return
+			}
+			panic(r)
+		}
+	}()
+	var terms, sorts []string
+	for _, v := range vals {
+		if i, isI := v.(Iface); isI && i.Dyn != nil {
+			v = i.V
+		}
+		terms = append(terms, flatten(v)...)
+		sorts = append(sorts, flatSorts(v)...)
+	}
+	f := ex.Ctx.Declare("sprintf_"+format, sorts, "Str")
+	return Str{smt.App(f, terms...)}, true
 }
 
 // scanFns: ghost description of the input of a bufio.Scanner: number of lines and the
